@@ -61,6 +61,11 @@ def belt_configs(tier, seed):
                            ("odd", [slot + 1, 1, L + 1])]:
                 C.append({"type": typ, "acc": acc, "cap": cap, "slot": slot, "Q": Q, "T": 20 * L + 200, "arrivals": a, "service": sv,
                           "pattern": "stall/%s/%s" % (an, sn)})
+    # items that have ridden another conveyor before (they carry that ride's stamps); a producer faster than one slot
+    for typ, acc, (cap, slot) in itertools.product(["conveyor", "slotted"], [0, 1], [(3, 4), (4, 2), (2, 2)]):
+        for an, a in [("fast", [0, 1, 2, 3, 4, 5]), ("burst", [0, 0, 0, 0, 2 * cap * slot, 2 * cap * slot])]:
+            C.append({"type": typ, "acc": acc, "cap": cap, "slot": slot, "Q": Q, "T": 20 * cap * slot + 100, "arrivals": a,
+                      "service": [-1], "pattern": "prestamped/%s" % an, "prestamp": True})
     for i, c in enumerate(C):
         c["name"] = "belt%04d" % i
     return C
